@@ -86,6 +86,11 @@ fn main() {
                     report.completed.push(format!("{kind}: {} documents (corpus {}, single-edit neighbours {}, token sequences {}) x {} subjects: ALL(n<={}) + DEV({}) with <=1 Interrupted + UNI{:?} x chunks {:?}", docs.len(), inp.corpus.len(), inp.neighbours.len(), inp.sequences.len(), subs.len(), params.all_len, params.dev_bound, params.uni, params.chunks));
                 }
                 sample_docs(&mut report, kind, &inp.corpus);
+                if kind != "log" {
+                    let reference = subjects::make(kind, "i32", false);
+                    let small: Vec<generic::Doc> = inp.corpus.iter().cloned().chain(inp.neighbours.iter().filter(|d| d.bytes.len() <= 24).cloned()).collect();
+                    generic::c01_constructors(reference.as_ref(), &small, &|b| subjects::via_constructors(kind, b), &mut report);
+                }
             }
             report.traces = report.evaluations;
             "inputs = hand-written corpus of well-formed documents per parser + all their single-edit neighbours (every truncation, every byte deleted, every byte replaced by each of 8 marker bytes) + all concatenations of up to 2 (quick) / 3 (thorough) tokens of a per-format token alphabet, deduplicated; schedules = every composition of the input into reads (with up to one Interrupted anywhere) for short inputs, all schedules with a bounded number of deviations from the one-shot schedule for longer ones, and uniform grains x chunk sizes; every execution compared with the one-shot execution. Non-trivial = at least two successful reads (a refill happened mid-document)".into()
